@@ -251,10 +251,17 @@ class Verdict:
         self.violations = []
         self.known = 0
         self.classes = {}
+        self.raw = []
+        self.collect_all = False
 
     def fail(self, sig, case):
         """sig: small dict identifying the failure class; case: full replayable description."""
         ck = canon(sig)
+        if self.collect_all:
+            if self.classes.get(ck, 0) < 3:
+                self.raw.append((sig, case))
+            self.classes[ck] = self.classes.get(ck, 0) + 1
+            return
         self.classes[ck] = self.classes.get(ck, 0) + 1
         if self.findings.explain(sig):
             self.known += 1
@@ -360,7 +367,7 @@ def exc_name(ex):
     return type(ex).__name__
 
 
-def replay_graph(graph, adapter, verdict, stats, only=None, sample_every=997):
+def replay_graph(graph, adapter, verdict, stats, only=None, sample_every=997, part=None):
     """Execute every (source state, op[, variant]) group of the exported graph on the
     implementation, from a fresh object along a shortest path, and compare the result
     and all observations with what the specification predicts.
@@ -370,13 +377,18 @@ def replay_graph(graph, adapter, verdict, stats, only=None, sample_every=997):
              .observe(obj, observed) -> dict,  .compare(obs, predicted_obs, state) -> None | str
     """
     n = 0
+    gi = -1
     for (fk, ok), outs in graph.groups.items():
         op = graph.ops[ok]
+        gi += 1
+        if part and gi % part[1] != part[0]:
+            continue
         if only and not only(op):
             continue
         if fk not in graph.path:
             continue
         init, path = graph.path[fk]
+        adapter.cur_f_obs = graph.obs.get(fk)
         for variant in adapter.variants(op):
             n += 1
 
@@ -462,8 +474,52 @@ class GenericAdapter:
         return {}
 
 
-def replay_graph_generic(graph, adapter, verdict, stats, only=None):
-    """Like replay_graph, with also_t / also_f handling."""
+_PAR = {}
+
+
+def _par_worker(i):
+    graph, adapter, only, nproc, generic = _PAR["args"]
+    v = Verdict("par", "par", 0)
+    v.findings.entries = []
+    v.collect_all = True
+    s = Stats()
+    try:
+        if generic:
+            replay_graph_generic(graph, adapter, v, s, only=only, part=(i, nproc), _serial=True)
+        else:
+            replay_graph(graph, adapter, v, s, only=only, part=(i, nproc))
+    except MachineryError as ex:
+        return ("machinery", str(ex))
+    return ("ok", v.raw, s.edges_executed, s.nontrivial, s.samples, s.extra)
+
+
+def replay_parallel(graph, adapter, verdict, stats, only=None, generic=True, nproc=None):
+    """Fork workers; each replays every nproc-th group. Failures are merged into `verdict`."""
+    import multiprocessing as mp
+    nproc = nproc or NCPU
+    _PAR["args"] = (graph, adapter, only, nproc, generic)
+    with mp.get_context("fork").Pool(nproc) as pool:
+        res = pool.map(_par_worker, range(nproc))
+    for r in res:
+        if r[0] == "machinery":
+            raise MachineryError(r[1])
+        _, raw, edges, nontriv, samples, extra = r
+        for sig, case in raw:
+            verdict.fail(sig, case)
+        stats.edges_executed += edges
+        stats.nontrivial |= nontriv
+        for x in samples:
+            stats.sample(x, cap=5)
+        for k, val in extra.items():
+            if isinstance(val, int):
+                stats.extra[k] = stats.extra.get(k, 0) + val
+
+
+def replay_graph_generic(graph, adapter, verdict, stats, only=None, part=None, _serial=False):
+    """Like replay_graph, with also_t / also_f handling. Runs in parallel worker processes
+    unless called from one."""
+    if not _serial and part is None and len(graph.groups) > 2000:
+        return replay_parallel(graph, adapter, verdict, stats, only=only, generic=True)
     base_match = adapter.match
 
     class Wrap:
@@ -479,10 +535,14 @@ def replay_graph_generic(graph, adapter, verdict, stats, only=None):
             d = first_diff(o, graph.obs[canon(pred["s"])])
             if d:
                 return "also_t[%d].%s" % (i, d)
+        for i, o in enumerate(got.get("also_f", [])):
+            d = first_diff(o, adapter.cur_f_obs)
+            if d:
+                return "also_f[%d].%s" % (i, d)
         return None
     adapter.match = match
     try:
-        return replay_graph(graph, adapter, verdict, stats, only=only)
+        return replay_graph(graph, adapter, verdict, stats, only=only, part=part)
     finally:
         adapter.match = base_match
 
